@@ -38,7 +38,9 @@ THEOREMS = ["fasta_read_write", "fasta_rewrap_invariant", "fasta_file_lines", "f
             "compalign_self_is_perfect", "compalign_correct_le_counted",
             # round 6: the streamed (--small) paths: esl_msafile2_RegurgitatePfam as esl-alimask / esl-alimanip call it, esl-alistat --small
             "small_regurgitate_rows", "small_regurgitate_identity", "small_regurgitate_seq_line", "small_mask_shrinks",
-            "small_wanted_sublist", "small_alistat_is_projection", "small_reformat_afa_eq_reference"]
+            "small_wanted_sublist", "small_alistat_is_projection", "small_reformat_afa_eq_reference", "small_reformat_pfam_rows",
+            # round 6: esl-alimerge (in-memory mode)
+            "alimerge_restriction", "alimerge_length", "alimerge_rows_stay_aligned"]
 
 SQFORMATS = ["fasta", "embl", "genbank", "uniprot", "ddbj", "daemon", "hmmpgmd", "ncbi", "fmindex"]
 MSAFORMATS = ["stockholm", "pfam", "a2m", "afa", "psiblast", "clustal", "clustallike", "selex", "phylip", "phylips"]
@@ -1465,12 +1467,13 @@ def ref_small(rng, i):
     abc = rng.choice([DNA, "ACGU", AMINO])
     nseq = rng.choice([1, 2, 3, 6, 17])
     names = ["%s%d" % (rng.choice(["s", "seq", "x_", "a|b|"]), k + 1) for k in range(nseq)]
-    which = rng.choice(["reformat-afa", "reformat-pfam", "alimask", "alimanip", "alistat", "alistat"])
+    which = rng.choice(["reformat-afa", "reformat-pfam", "alimask", "alimask", "alimanip", "alistat", "alistat"])
     nrec = 1 if which in ("reformat-afa", "alimask") else rng.choice([1, 1, 2, 3])
     text, rows0, rf0 = "", None, None
     for k in range(nrec):
         t, rows, rfl = _pfam_record(rng, abc, names, ident=("aln%d" % (k + 1) if rng.random() < 0.7 or nrec > 1 else None),
                                     gs=(which != "alistat" or rng.random() < 0.5), rf=(True if which == "alimask" and rng.random() < 0.6 else None),
+                                    ss=(True if which == "alimask" and abc != AMINO and rng.random() < 0.85 else None),   # the mask must break pairs of SS_cons / SS
                                     lower=(0.2 if which.startswith("reformat") else 0.0))
         if k == 0: rows0, rf0 = rows, rfl
         text += t
@@ -1519,6 +1522,52 @@ def ref_small(rng, i):
         base = (["-1"] if rng.random() < 0.4 else []) + ["--informat", "pfam", ABCFLAG[abc], "in.sto"]
         case["ops"] = [op_file("in.sto", text), op_run("esl-alistat", base), op_run("esl-alistat", ["--small"] + base)]
     return case
+
+
+def ref_alimerge(rng, i):
+    """esl-alimerge (in-memory mode): 2-4 alignments that share their consensus (#=GC RF) columns but differ in their insert columns
+    (none / before the first / between / after the last consensus column; widths 0..5), two files or --list with several files and
+    several alignments per file; complete stdout predicted by the Lean model of update_maxgap / determine_gap_columns_to_add /
+    inflate_seq_with_gaps + the C03 Stockholm writer"""
+    abc = rng.choice([DNA, "ACGU", AMINO])
+    clen = rng.choice([0, 1, 2, 5, 12, 30]) if rng.random() < 0.9 else 61
+    cons = "".join(rng.choice("xX" + abc) for _ in range(clen))
+    nali = rng.choice([2, 2, 3, 4])
+    use_list = nali != 2 or rng.random() < 0.3
+    texts, k = [], 0
+    for a in range(nali):
+        widths = [rng.choice([0, 0, 0, 1, 2, 3, 5]) for _ in range(clen + 1)]
+        if clen == 0 and widths[0] == 0: widths[0] = 1
+        rf, cols = "", []
+        for c in range(clen + 1):
+            rf += "".join(rng.choice(".-") if rng.random() < 0.3 else "." for _ in range(widths[c])); cols += [False] * widths[c]
+            if c < clen: rf += cons[c]; cols.append(True)
+        rows = []
+        for _ in range(rng.choice([1, 2, 3, 5])):
+            k += 1
+            seq = "".join((rng.choice(abc) if rng.random() < 0.85 else "-") if m else (rng.choice(abc).lower() if rng.random() < 0.6 else ".") for m in cols)
+            rows.append(("%s%d" % (rng.choice(["s", "seq", "x_"]), k), seq))
+        w = max(len(n) for n, _ in rows) + rng.choice([1, 3])
+        w = max(w, 8)
+        t = "# STOCKHOLM 1.0\n" + ("\n" if rng.random() < 0.5 else "") + "".join(n.ljust(w) + s_ + "\n" for n, s_ in rows) + "#=GC RF".ljust(w) + rf + "\n//\n"
+        texts.append(t)
+    ops, args = [], [ABCFLAG[abc]]
+    if rng.random() < 0.3: args += ["--outformat", rng.choice(["pfam", "stockholm", "afa"])]
+    if use_list:
+        # group the alignments into files
+        files, cur = [], ""
+        for t in texts:
+            cur += t
+            if rng.random() < 0.6: files.append(cur); cur = ""
+        if cur: files.append(cur)
+        for j, f in enumerate(files): ops.append(op_file("m%d.sto" % j, f))
+        ops.append(op_file("list", "".join("m%d.sto\n" % j for j in range(len(files)))))
+        args = ["--list"] + args + ["list"]
+    else:
+        ops += [op_file("m0.sto", texts[0]), op_file("m1.sto", texts[1])]
+        args += ["m0.sto", "m1.sto"]
+    c = {"name": "ref-alimerge-%d" % i, "ref": True, "sticky": len(ops), "ops": ops + [op_run("esl-alimerge", args)]}
+    return _with_o(rng, c, "esl-alimerge", args)
 
 
 def ref_afetch_multi(rng, i):
@@ -2240,7 +2289,7 @@ REFORMAT_SWEEP = Sweep("esl-reformat",
             "--namelen": lambda r: r.choice(["1", "5", "10", "10", "14", "25", "40"])},
     skip={"-o": "exercised on a tenth of the cases (output file compared instead of stdout)", "--informat": "always given",
           "--ignore": "alignment output: refused at run time (corpus); FASTA input -> fasta: modelled and exercised by ref_reformat (input-map edit of the sequence reader)",
-          "--acceptx": "as --ignore", "--small": "compared with the normal mode's output (ref_small), not with the model",
+          "--acceptx": "as --ignore", "--small": "modelled line by line (Miniapps/Small.lean) and compared exactly by ref_small",
           "--id_map": "hmmpgmd output only: map file compared by the python monitor (ref_hmmpgmd)"},
     build=_reformat_build, singles=4, pair_reps=1)
 
@@ -2461,7 +2510,7 @@ ALIMASK_SWEEP = Sweep("esl-alimask",
             "-o": lambda r: "out.ali", "--fmask-rf": lambda r: "fm_rf.txt", "--fmask-all": lambda r: "fm_all.txt",
             "--gmask-rf": lambda r: "gm_rf.txt", "--gmask-all": lambda r: "gm_all.txt"},
     skip={k: "posterior-probability masks (-p): not modelled; search + ref_alimask monitor" for k in
-          ("-p", "--pfract", "--pthresh", "--pavg", "--ppcons", "--pallgapok", "--pmask-rf", "--pmask-all")} | {"--small": "compared with the normal mode (ref_small)"},
+          ("-p", "--pfract", "--pthresh", "--pavg", "--ppcons", "--pallgapok", "--pmask-rf", "--pmask-all")} | {"--small": "modelled (esl_msafile2_RegurgitatePfam) and compared exactly by ref_small"},
     build=_alimask_build, singles=3)
 
 SWEEPS += [ALIMASK_SWEEP]
@@ -2537,7 +2586,7 @@ ALIMANIP_SWEEP = Sweep("esl-alimanip",
             "--rm-gc": lambda r: r.choice(["RF", "SS_cons"]), "--num-rf": _flag, "--num-all": _flag,
             "--outformat": lambda r: r.choice(["stockholm", "pfam", "afa", "clustal", "phylip", "selex"]), "--informat": lambda r: "stockholm",
             "--dna": _flag, "--rna": _flag, "--amino": _flag},
-    skip={k: "clustering / insert / tree / trim / mask / structure options: search only (and ref_small for --small)" for k in
+    skip={k: "clustering / insert / tree / trim / mask / structure options: search only (--small: modelled and compared exactly by ref_small)" for k in
           ("--small", "--seq-ins", "--seq-ni", "--seq-xi", "--trim", "--t-keeprf", "--minpp", "--tree", "--mask2rf", "--m-keeprf", "--sindi", "--cindi",
            "--post2pp", "--xmask", "--cn-id", "--cs-id", "--cx-id", "--cn-ins", "--cs-ins", "--cx-ins", "--c-nmin", "--c-mx", "-M", "--M-rf", "--M-gapt")}
          | {"-o": "output file (exercised for the other tools)"},
@@ -2554,7 +2603,7 @@ def sweep_cases(ctx):
     return out
 
 
-REF_GENERATORS = [("esl-compalign", ref_compalign), ("esl-alimask -p", ref_alimask_pp), ("multi-alignment files", ref_multi_ali), ("esl-compstruct", ref_compstruct), ("esl-alistat exact", ref_alistat_exact), ("esl-afetch exact", ref_afetch_exact), ("esl-reformat msa->fasta", ref_reformat_msa2fasta), ("esl-reformat hmmpgmd", ref_hmmpgmd), ("esl-sfetch afa", ref_sfetch_afa), ("esl-alistat info", ref_alistat_info), ("small modes", ref_small), ("esl-afetch -f", ref_afetch_multi), ("esl-alimask", ref_alimask), ("esl-alimanip", ref_alimanip), ("easel index", ref_index), ("easel filter", ref_filter), ("esl-weight", ref_weight), ("esl-afetch", ref_afetch), ("roundtrip", ref_roundtrip), ("esl-alistat", ref_alistat), ("esl-translate", ref_translate), ("esl-sfetch", ref_sfetch), ("esl-seqstat", ref_seqstat), ("esl-alirev", ref_alirev), ("esl-alipid", ref_alipid),
+REF_GENERATORS = [("esl-alimerge", ref_alimerge), ("esl-compalign", ref_compalign), ("esl-alimask -p", ref_alimask_pp), ("multi-alignment files", ref_multi_ali), ("esl-compstruct", ref_compstruct), ("esl-alistat exact", ref_alistat_exact), ("esl-afetch exact", ref_afetch_exact), ("esl-reformat msa->fasta", ref_reformat_msa2fasta), ("esl-reformat hmmpgmd", ref_hmmpgmd), ("esl-sfetch afa", ref_sfetch_afa), ("esl-alistat info", ref_alistat_info), ("small modes", ref_small), ("esl-afetch -f", ref_afetch_multi), ("esl-alimask", ref_alimask), ("esl-alimanip", ref_alimanip), ("easel index", ref_index), ("easel filter", ref_filter), ("esl-weight", ref_weight), ("esl-afetch", ref_afetch), ("roundtrip", ref_roundtrip), ("esl-alistat", ref_alistat), ("esl-translate", ref_translate), ("esl-sfetch", ref_sfetch), ("esl-seqstat", ref_seqstat), ("esl-alirev", ref_alirev), ("esl-alipid", ref_alipid),
                   ("esl-seqrange", ref_seqrange), ("esl-selectn", ref_selectn), ("esl-mask", ref_mask),
                   ("esl-reformat", ref_reformat), ("esl-shuffle", ref_shuffle), ("easel downsample", ref_downsample)]
 
